@@ -44,6 +44,9 @@ SHARDS = {"quick": 16, "thorough": 16}
 SHARD_WATCHDOG = {"quick": 1500, "thorough": 10800}
 
 
+FAULT_LIMIT = 40   # seconds for one faulty run of a handful of tiny batches (normally well under a second)
+
+
 def gen_cases(tier, seed):
     n = 120 if tier == "quick" else 5000
     cases = [{"kind": "enum", "i": i, "seed": seed, "tier": tier} for i in range(n)]
@@ -222,7 +225,7 @@ def run_enum(desc, ctx, out):
 
         inj = YieldInjector(int(rng.integers(2**31))) if rl else contextlib.nullcontext()
         try:
-            with mon, inj, quiet(), G.time_limit(G.LIMIT):
+            with mon, inj, quiet(), G.time_limit(FAULT_LIMIT):
                 if target == "sampler":
                     with wrap_all(cal, pre_fault):
                         cal.calibrate(nb)
@@ -231,7 +234,26 @@ def run_enum(desc, ctx, out):
         except M.INJECTED as e:
             raised = e
         except G.Timeout:
+            # wall-clock alone decides nothing; what decides is who could still make progress when the limit fired
+            t = getattr(cal.scheduler, "_agent_thread", None)
+            frames = sys._current_frames()
+            agent_state = "no agent thread"
+            if t is not None:
+                if not t.is_alive():
+                    agent_state = "the agent thread has exited"
+                else:
+                    f = frames.get(t.ident)
+                    names = []
+                    while f is not None:
+                        names.append(f.f_code.co_name)
+                        f = f.f_back
+                    agent_state = "the agent thread is itself blocked in " + "/".join(names[:3]) if names[:1] and names[0] in ("wait", "get", "acquire", "_wait_for_tstate_lock") else "the agent thread is running"
             release(cal)
+            if rl and agent_state != "the agent thread is running":
+                out["violations"].append({"msg": f"fault at {target} invocation {k} (batch {b}): calibrate() neither raised nor returned within {FAULT_LIMIT} s; {agent_state}, "
+                                                 f"so the call waits for a message nobody will send (deadlock in the session tear-down) [RL scheduler]", "witness": fw})
+                cnt("deadlocks_after_fault")
+                break
             out["inconclusive"] = "faulty run did not return within the time limit"
             return
         except Exception as e:  # noqa: BLE001
